@@ -39,7 +39,7 @@ def ili_view(tables):
 
 def run(rep, tier, build, replay=None):
     rng = random.Random(common.seed() * 7919 + 19)
-    n = 12 if tier == 'quick' else 150
+    n = 12 if tier == 'quick' else 500
     hs = []
     meta = []
     for _ in range(n):
